@@ -270,6 +270,15 @@ pub fn c13(c: &mut Ctx) {
             tf_in(&mut c.rng, -20, 20)
         };
         c13_powi(c, base, nn);
+        // exact power-of-two bases (and their neighbours) with extreme exponents
+        if i % 8 == 0 {
+            let k = pk!(c.rng, [-1i64, 1, 2, -2, 3, -64, 64, 10, -10, 500, -500, 0]);
+            let b = pow2(k) * if c.rng.coin() { 1.0 } else { -1.0 };
+            let lo = if c.rng.chance(1, 4) { pow2((k - 60).max(-1074)) } else { 0.0 };
+            let e = pk!(c.rng, [i32::MIN, i32::MAX, 1 << 30, -(1 << 30), 1 << 20, -(1 << 20), 1023, -1074, 65536, i32::MIN + 1]);
+            c13_powi(c, (b, lo), e);
+            c.count("powi_pow2_base_extreme_exponent");
+        }
     }
 }
 
